@@ -4,11 +4,13 @@
 package staticfiles
 
 import (
+	"context"
 	"net/http"
 	"net/url"
 	"path"
 	"strings"
 
+	"github.com/tmpim/casket"
 	"github.com/tmpim/casket/zzverif/verifrt"
 )
 
@@ -137,6 +139,14 @@ func VerifH02aRedirects() {
 	fs := FileServer{Root: http.Dir(root), IndexPages: []string{"i"}}
 	p := zzReqPath(4+verifrt.Tier(), "/.\\ad")
 	r := &http.Request{Method: "GET", URL: &url.URL{Path: p}, Header: http.Header{}, Host: "h"}
+	// the site's path prefix as Server.serveHTTP records it: absent (handler used directly), "/" (a
+	// site defined without a path -- the normal case) or a real prefix
+	switch verifrt.Choose("path-prefix", 3) {
+	case 1:
+		r = r.WithContext(context.WithValue(r.Context(), casket.CtxKey("path_prefix"), "/"))
+	case 2:
+		r = r.WithContext(context.WithValue(r.Context(), casket.CtxKey("path_prefix"), "/s"))
+	}
 	w := &zzClient{}
 	fs.ServeHTTP(w, r)
 	if loc := w.Header().Get("Location"); loc != "" {
